@@ -221,7 +221,7 @@ func c13Components(c psatoken.IClaims, m *MClaims) string {
 
 func TestC13_ClaimErrors(t *testing.T) {
 	st := NewStats("C13", "TestC13_ClaimErrors", "rapid: each claim / component field x each way of being wrong, alone (exact class) and combined (class of some offending claim), on claims-sets obtained as struct literals, via the per-type CBOR unmarshal, and via setters called with invalid values; errors.Is against the five sentinels must hold for the expected class and for no other. Non-trivial = the error travels through >= 1 wrapping layer (component inside list, getter inside Validate); distinct = (route, class vector)")
-	st.Require = []string{"route=literal", "route=unmarshal", "route=setter", "single", "combined", "component-defect", "foreign-component", "degraded-in-place", "null-component-entry"}
+	st.Require = []string{"route=literal", "route=unmarshal", "route=setter", "single", "combined", "component-defect", "foreign-component", "degraded-in-place", "null-component-entry", "setter-on-held-value"}
 	defer st.Flush(t)
 	rapid.Check(t, func(t *rapid.T) {
 		p := drawProf(t)
@@ -265,6 +265,32 @@ func TestC13_ClaimErrors(t *testing.T) {
 					}
 				}
 				cls := []string{"route=setter"}
+				if o.Claim != CSwComps {
+					// ... and the same call on a claims-set that ALREADY holds
+					// that very (malformed) value, by a route that did not
+					// validate it (filled through the fields, decoded): the
+					// setter still refuses it, with the same class
+					hm := baseValid(p, 1)
+					o.updateModel(hm, nil)
+					if held, ok := hm.BuildLiteral(); ok {
+						herr, happ := o.apply(held)
+						if happ && herr == nil {
+							t.Fatalf("C13 violated: setter %s accepts an invalid value when the claims-set already holds that same value", o)
+						}
+						if happ {
+							hgot := classSet(herr)
+							if len(hgot) == 0 {
+								t.Fatalf("C13 violated: error of %s on a claims-set already holding the value (%q) satisfies errors.Is for no sentinel class", o, herr)
+							}
+							for cl := range hgot {
+								if !allowed[cl] {
+									t.Fatalf("C13 violated: error of %s on a claims-set already holding the value (%q) classified %s, want %s", o, herr, clsSetString(hgot), clsSetString(allowed))
+								}
+							}
+						}
+						cls = append(cls, "setter-on-held-value")
+					}
+				}
 				if o.Claim == CSwComps {
 					cls = append(cls, "component-defect")
 					// the same list with the malformed components being of
